@@ -5,8 +5,14 @@ from .. import gen, oracles, solved, sysdesc
 CLAIM = True
 MODULE = "SysLoss.Props.C06"
 THEOREMS = ["SysLoss.C06." + t for t in (
-    "ctx_names", "ctx_table", "active_eq_nophase", "loadVal_spec", "load_phase_behaviour", "phaseList_unknown", "phaseList_known", "phaseList_all", "solve_single", "mapM_entries", "solve_all_entry")]
-LEVEL_TEXT = ("Theorems (Lean 4): what a phase configuration means (list: inactive iff non-empty and phase unlisted; table: listed value, else sleep value); a non-load component that is active in a phase obeys exactly its phase-free laws; a load in a phase obeys the phase-free laws of the same load carrying the phase / sleep value (an RLoad keeps its resistance); solve() lists the phases in declaration order, each table entry is assembled from that phase's own converged solution, solve(phase=p) returns exactly that entry, and an unknown phase is a ValueError. Inactive elements are C04. Tied to the code on every run: every cell of every (component, phase) against the model's certificate, and an oracle that rebuilds the per-phase behaviour system through the public constructors, solves it without phases and compares row by row; solve(phase=p) vs the all-phase rows; unknown phase.")
+    "ctx_names", "ctx_table", "active_eq_nophase", "loadVal_spec", "load_phase_behaviour", "phaseList_unknown", "phaseList_known", "phaseList_all", "solve_single", "mapM_entries", "solve_all_entry",
+    # Props/C06System: solving phase p = solving the behaviour system (every component replaced by what it does in p)
+    "fwdAt_behave", "backAt_behave", "fwdProp_behave", "backProp_behave", "loop_behave", "converged_behave", "steady_behave", "init_behave",
+    "init_behave_full_fails", "init_behave_partial", "solvePhase_behave_partial", "solvePhase_behave_full_fails",
+    "compRow_behave_partial", "compRow_behave_wf", "compRow_behave_full_fails", "warn_sleeping_differs", "compRows_behave_partial",
+    "phaseTable_behave_partial", "solvePhase_label", "behave_noconf", "phase_is_nophase_system")]
+MODULES = ["SysLoss.Props.C06", "SysLoss.Props.C06System"]
+LEVEL_TEXT = ("Theorems (Lean 4): what a phase configuration means (list: inactive iff non-empty and phase unlisted; table: listed value, else sleep value); a non-load component that is active in a phase obeys exactly its phase-free laws; a load in a phase obeys the phase-free laws of the same load carrying the phase / sleep value (an RLoad keeps its resistance); solve() lists the phases in declaration order, each table entry is assembled from that phase's own converged solution, solve(phase=p) returns exactly that entry, and an unknown phase is a ValueError. Inactive elements are C04. System level (Props/C06System): for ANY system and phase p, every cell of both sweeps, the whole iteration from a common start (`loop_behave`), the converged states and the exact steady states (`converged_behave`, `steady_behave`) of the system in phase p are those of the behaviour system in which every load carries its phase / sleep value and every active non-load its own laws with the configuration removed; the assembled rows agree in every numeric cell (`compRows_behave_partial`); when every component is a load or active in p the phase is literally a configuration-free system with the phase name as a label (`phase_is_nophase_system`). Stated exactly where it stops: the two runs start from different initial currents for an ILoad with a phase table (its initial guess ignores the table: `init_behave_full_fails`, same result, one more sweep) and a sleeping load's Warnings cell is empty by rule (`warn_sleeping_differs`). Tied to the code on every run: every cell of every (component, phase) against the model's certificate, and an oracle that rebuilds the per-phase behaviour system through the public constructors, solves it without phases and compares row by row; solve(phase=p) vs the all-phase rows; unknown phase.")
 LEVEL_NOTE = ('Negative per-phase values are outside the generated stream (not normalised by set_comp_phases; DESIGN.md F25).')
 RULE = ("random trees with 2-5 system phases (durations log-uniform 1e-3..1e5), every component given a phase configuration with "
         "probability 1/2 (lists: random subsets incl. empty and unknown names; load tables: random subsets of the phases); the oracle "
